@@ -190,6 +190,12 @@ class Engine:
         self.ghosts = {}
         self.global_axioms = []
 
+    def memo_attrs(self):
+        """attributes declared as memo attributes by some contract (rule MEMO-ATTRIBUTE)"""
+        if not hasattr(self, "_memo_attrs"):
+            self._memo_attrs = {a for K_ in self.contracts.values() for a in getattr(K_.cls, "memo_attrs", ())}
+        return self._memo_attrs
+
     # ------------------------------------------------------------ parameters
     def make_param(self, name, sort, st):
         if sort == "int":
@@ -830,8 +836,7 @@ class Engine:
             for t, v in zip(tgt.elts, items):
                 self.assign(t, v, st)
             return
-        if isinstance(tgt, ast.Attribute) and isinstance(tgt.value, ast.Name) and tgt.value.id == "self" \
-                and self.contract is not None and tgt.attr in getattr(self.contract.cls, "memo_attrs", ()):
+        if isinstance(tgt, ast.Attribute) and isinstance(tgt.value, ast.Name) and tgt.value.id == "self" and tgt.attr in self.memo_attrs():
             st.env[f"self.{tgt.attr}"] = val
             return
         if isinstance(tgt, ast.Subscript):
@@ -1240,7 +1245,7 @@ class Engine:
         return ListV(len(items), fn)
 
     def ev_Attribute(self, node, st):
-        memo = getattr(self.contract.cls, "memo_attrs", ()) if self.contract is not None else ()
+        memo = self.memo_attrs()
         if node.attr in memo and isinstance(node.value, ast.Name) and node.value.id == "self":
             # MEMO-ATTRIBUTE: the attribute caches a value that depends only on the (immutable) object -
             # established by the structural obligation memo-invariant (pyvc.frames); the function is verified
@@ -1731,17 +1736,43 @@ class Engine:
             return v.to_set(ar)
         if isinstance(v, SeqV) and v.kind == "range" and "lo" in v.meta and "hi" in v.meta:
             lo_, hi_ = v.meta["lo"], v.meta["hi"]
-            return SetV(lambda x, lo_=lo_, hi_=hi_: z3.And(Z(x) >= lo_, Z(x) < hi_), 1)  # set(range(lo, hi))
+            out_ = SetV(lambda x, lo_=lo_, hi_=hi_: z3.And(Z(x) >= lo_, Z(x) < hi_), 1)  # set(range(lo, hi))
+            if self.concrete:
+                l0, h0 = z3.simplify(lo_), z3.simplify(hi_)
+                if z3.is_int_value(l0) and z3.is_int_value(h0):
+                    out_.elements = [IntV(k_) for k_ in range(l0.as_long(), h0.as_long())]
+            return out_
         if isinstance(v, (SeqV, ListV, TupV)):
             seq = self.as_seq(v, st)
             sample = seq.at(fresh("s"))
             ar = len(sample) if isinstance(sample, TupV) else 1
+            win = seq.meta.get("window_of") if isinstance(seq, SeqV) else None
 
             def contains(x, seq=seq):
+                if self.concrete:
+                    n_c = z3.simplify(seq.n)
+                    if z3.is_int_value(n_c):
+                        alts = [veq(seq.at(z3.IntVal(jj)), x) for jj in range(n_c.as_long())]
+                        return z3.Or(alts) if alts else z3.BoolVal(False)
                 j = fresh("m")
-                return z3.Exists([j], z3.And(j >= 0, j < seq.n, veq(seq.at(j), x)))
+                slow = z3.Exists([j], z3.And(j >= 0, j < seq.n, veq(seq.at(j), x)))
+                if win is not None:
+                    # PERM-WINDOW: for a bijection p with two-sided inverse g,  x in p[lo:hi]  <=>  0 <= x < n and
+                    # lo <= g(x) < hi.  Stated conditionally on the bijection formula itself, so it is sound
+                    # whether or not that formula is known in the context.
+                    g_ = win.meta["ginv"]
+                    gx = Z(g_(x))
+                    fast = z3.And(Z(x) >= 0, Z(x) < win.n, gx >= seq.meta["lo"], gx < seq.meta["hi"])
+                    self.rules_used.add("perm-window membership via the ghost inverse")
+                    return z3.If(dsl.perm_formula(win, g_), fast, slow)
+                return slow
 
-            return SetV(contains, ar)
+            out_ = SetV(contains, ar)
+            if self.concrete:
+                n_c0 = z3.simplify(seq.n)
+                if z3.is_int_value(n_c0):
+                    out_.elements = [seq.at(z3.IntVal(jj)) for jj in range(n_c0.as_long())]
+            return out_
         raise Unsupported(f"set() of {v!r}")
 
     # ------------------------------------------------------------------ calls
@@ -2024,6 +2055,8 @@ class Engine:
             if F is None:
                 raise Unsupported(f"concrete mode: {name} not found")
             full = list(args)
+            if F.kind == "classmethod" and full and isinstance(full[0], NoneV):
+                full = full[1:]  # the contract-level `cls` placeholder
             # fill defaults from the function signature
             names = [p for p in F.params]
             if F.kind == "classmethod":
